@@ -67,16 +67,18 @@ def check(ctx):
                 'correspondence: real IrProtocolBase.decode histories vs model (idecode ops incl. held code and stop-timer effects); '
                 'search: ALL real protocols x parameter sets x n=0..4: the emitted sequence on one fresh decoder (each frame: the code, or RepeatLeadIn/RepeatLeadOut; at least one code), '
                 'and every single frame on a decoder without history (the code or an error, never another code). distinct = (protocol, params, n)')
-    tabs, ok = engine_prove.prove(ctx, MODULES, with_obligations=False)
+    tabs, ok = engine_prove.prove(ctx, MODULES, with_obligations=False, with_wrappers=True)
     import fingerprint
     changed_p, changed_e = fingerprint.changed()
     r = vlib.rng('c06corr')
     try:
         ec.standard_correspondence(ctx, r, per_proto=2 if not ctx.thorough else 6, focus=changed_p)
+        from props import wrap_common
+        wrap_common.correspondence(ctx, vlib.rng('c06wrap'), tabs, getattr(ctx, 'winfo', {}), per_proto=3 if not ctx.thorough else 12, focus=changed_p | engine_prove.failed_protocols(ctx))
     except Exception:
         import traceback
         ctx.oblige('correspondence_driver', False, traceback.format_exc()[-500:])
-    search(ctx, changed_p, deep=3 if changed_e else 1)
+    search(ctx, changed_p | engine_prove.failed_protocols(ctx), deep=3 if changed_e else 1)
 
 
 def replay(path):
